@@ -627,3 +627,32 @@ func SharedSpecTargets() []Target {
 	}
 	return out
 }
+
+// NoShareTargets: TLS 1.3 specs that deliberately send no usable key share - an empty
+// client_shares vector, or only the GREASE share - to let the server pick the group with a
+// HelloRetryRequest (RFC 8446, Section 4.2.8 allows both).
+func NoShareTargets() []Target {
+	var out []Target
+	for _, variant := range []string{"empty-client-shares", "grease-only-share"} {
+		for _, pn := range []string{"Chrome_120", "Firefox_120", "Chrome_102"} {
+			variant, p := variant, ParrotByName(pn)
+			out = append(out, Target{Name: p.Name + "+" + variant, Spec: func() (*tls.ClientHelloSpec, error) {
+				sp, err := tls.UTLSIdToSpec(p.ID)
+				if err != nil {
+					return nil, err
+				}
+				for i, e := range sp.Extensions {
+					if _, ok := e.(*tls.KeyShareExtension); ok {
+						if variant == "empty-client-shares" {
+							sp.Extensions[i] = &tls.KeyShareExtension{}
+						} else {
+							sp.Extensions[i] = &tls.KeyShareExtension{KeyShares: []tls.KeyShare{{Group: tls.GREASE_PLACEHOLDER, Data: []byte{0}}}}
+						}
+					}
+				}
+				return &sp, nil
+			}})
+		}
+	}
+	return out
+}
